@@ -184,6 +184,15 @@ func HPKESeal(key Mathint, seq int, aad, pt string) string { return "" }
 //@ ensures HPKEOpenOK(key, seq, aad, HPKESeal(key, seq, aad, pt)) && HPKEOpen(key, seq, aad, HPKESeal(key, seq, aad, pt)) == pt
 func axHPKESealOpen(key Mathint, seq int, aad, pt string) {}
 
+// The ciphertext expansion is a constant of the AEAD.
+//
+//@ spec opaque
+func AEADOverhead(aead hpke.AEADID) int { return 0 }
+
+//@ lemma auto trusted
+//@ ensures AEADOverhead(aead) >= 0 && AEADOverhead(aead) <= 64 && len(HPKESeal(HPKECtx(pkR, enc, info, kem, kdf, aead), seq, aad, pt)) == len(pt)+AEADOverhead(aead)
+func axHPKESealLen(pkR, enc, info string, kem hpke.KEMID, kdf hpke.KDFID, aead hpke.AEADID, seq int, aad, pt string) {}
+
 //@ lemma auto trusted
 //@ ensures HPKEOpenOK(key, seq, aad, ct) ==> len(HPKEOpen(key, seq, aad, ct)) <= len(ct)
 func axHPKEOpenLen(key Mathint, seq int, aad, ct string) {}
